@@ -157,7 +157,11 @@ def execute_cache(ctx, case):
 def relay_cases(draw):
   case = draw(c07.cases())
   case['side'] = 'relay'
-  case['flow'] = True
+  # USE_FLOW_CONTROL off (documented): nobody is ever paused by a full queue, but the dynamic router still raises the
+  # paused flag when its last destination goes down - no receiver may end up paused for good because of that
+  case['flow'] = draw(st.sampled_from([True, True, True, False]))
+  if not case['flow']:
+    case['dynamic'] = True
   case['receivers'] = draw(st.integers(1, 3))
   case['ops'] = [op for op in case['ops'] if op[0] != 'stop']
   # sprinkle receiver connects
@@ -272,7 +276,7 @@ def execute_relay(ctx, case):
                low, queues, sorted(t.router_dests, key=repr), t.final_states, case['max_queue'], case['batch'], case['dynamic']),
              case, 'lets-go')
     return
-  if t.unpaused_connect:
+  if t.unpaused_connect and case['flow']:
     ctx.fail('C09:connection-made-while-paused-not-paused', 'a receiver connected while receivers were paused and its transport '
              'was left producing', case, 'paused-too')
     return
@@ -281,7 +285,8 @@ def execute_relay(ctx, case):
       ctx.fail('C09:receiver-state-disagrees', 'global paused flag is %s but receiver transports are %r' % (t.paused, t.receiver_states),
                case, 'all-receivers')
       return
-  classes = ['relay', 'dests=%d' % case['ndest'], 'dynamic' if case['dynamic'] else 'static', 'quiesce=' + case['quiesce']]
+  classes = ['relay', 'dests=%d' % case['ndest'], 'dynamic' if case['dynamic'] else 'static', 'quiesce=' + case['quiesce']] + (
+    [] if case['flow'] else ['flow control off'])
   if ever_paused:
     classes.append('pause occurred')
   if len(t.router_dests) < case['ndest']:
